@@ -18,8 +18,8 @@ VERIF_ROOT = Path(__file__).resolve().parent.parent
 REPO_ROOT = Path(os.environ.get('VERIF_REPO', '/repo')).resolve()
 BUILD_DIR = VERIF_ROOT / '.build'
 DEPS_DIR = VERIF_ROOT / '.deps'
-REPLAY_DIR = VERIF_ROOT / 'replays'
-EVIDENCE_DIR = VERIF_ROOT / 'evidence'
+REPLAY_DIR = Path(os.environ.get('VERIF_REPLAY_DIR', VERIF_ROOT / 'replays'))
+EVIDENCE_DIR = Path(os.environ.get('VERIF_EVIDENCE_DIR', VERIF_ROOT / 'evidence'))
 PYTHON = '/venv/bin/python'
 
 
